@@ -81,6 +81,8 @@ Definition kv_interp (r : kvrec) : option bytes := fst r.
 Record creat := mkCreat { cr_created : bool; cr_creator : addr; cr_ctype : N }.
 Definition creat_none : creat := mkCreat false 0%N 0%N.
 Definition creat_interp (c : creat) : creat := if cr_created c then c else creat_none.
+Definition creat_eqb (x y : creat) : bool :=
+  Bool.eqb (cr_created x) (cr_created y) && N.eqb (cr_creator x) (cr_creator y) && N.eqb (cr_ctype x) (cr_ctype y).
 
 Record delta := mkDelta {
   d_ver : N;                               (* consensus version tag of the block *)
